@@ -23,6 +23,9 @@ RULES13 = ['InverseBinaryRule', 'BlockRowBlockDiagonalRule', 'BlockDiagonalBlock
            'LinearPolarizerHWPRule']
 
 PLAN = {
+    'C18': _p(quick=70, thorough=1500, qbudget=75, tbudget=2400),
+    'C17': _p(shards={'x32': 8, 'x64': 8}, quick=150, thorough=4000,
+              exhaustive_scope='the enumerated small maps of the sweep (see coverage.extra.sweep_box)'),
     'C16': _p(shards={'x32': 5, 'x64': 11}, quick=36, thorough=900, qbudget=75, tbudget=2400),
     'C08': _p(quick=110, thorough=2500,
               required_classes={'thorough': ['class:AdditionOperator', 'class:BlockColumnOperator', 'class:BlockDiagonalOperator', 'class:BlockRowOperator', 'class:BroadcastDiagonalOperator', 'class:CompositionOperator', 'class:DenseBlockDiagonalOperator', 'class:DiagonalInverseOperator', 'class:DiagonalOperator', 'class:HWPOperator', 'class:HomothetyOperator', 'class:IdentityOperator', 'class:IndexOperator', 'class:InverseOperator', 'class:LinearPolarizerOperator', 'class:MoveAxisOperator', 'class:PackOperator', 'class:QURotationOperator', 'class:QURotationTransposeOperator', 'class:RavelOperator', 'class:ReshapeOperator', 'class:ReshapeTransposeOperator', 'class:SymmetricBandToeplitzOperator', 'class:ToastObservationMatrixOperator', 'class:ToastObservationMatrixTransposeOperator', 'class:TransposeOperator']}),
